@@ -23,7 +23,7 @@ ASSUMPTIONS = [
 REQUIRED = {"subproblems": 20000, "postconditions": 20000,
             "solver_posed_subproblems": 2000}
 MIN_NONTRIVIAL = {"quick": 200, "thorough": 1000}
-PLAN = [("fuzz", 64, 1600), ("real", 300, 4000)]
+PLAN = [("fuzz", 64, 1600), ("real", 300, 4000), ("repotests", 1, 1)]
 PROP = "C15"
 
 
@@ -37,4 +37,9 @@ worker_init = subdrive.worker_init
 def run_case(case):
     if case["fam"] == "fuzz":
         return subdrive.fuzz_case(case, PROP)
+    if case["fam"] == "repotests":
+        from vlib import repotests
+        viols, counts = repotests.run(PROP)
+        return e2e.record(case, viols, tags=["fam:repotests"], counts=counts,
+                          nt="repotests")
     return subdrive.real_case(case, PROP)
